@@ -188,6 +188,45 @@ fn long_segsets(stream: &[u8], thorough: bool) -> Vec<Vec<usize>> {
     out
 }
 
+/// segmentations for streams of several large components: reads that fill all offered room,
+/// typical network chunk sizes, and single cuts around every component boundary / buffer size
+fn multi_segsets(stream: &[u8], bounds: &[usize]) -> Vec<Vec<usize>> {
+    let n = stream.len();
+    let mut out: Vec<Vec<usize>> = vec![vec![]];
+    for size in [7usize, 1000, 1460, 4095, 4096, 4097, 8192, 16384] {
+        out.push(chunked(n, size));
+    }
+    let mut pts: Vec<usize> = bounds.to_vec();
+    // payload starts: the byte after each `binary: N` header line
+    let mut i = 0;
+    while let Some(p) = stream[i..].windows(8).position(|w| w == b"binary: ") {
+        let at = i + p;
+        if let Some(e) = stream[at..].iter().position(|&b| b == b'\n') {
+            pts.push(at);
+            pts.push(at + e + 1);
+            i = at + e + 1;
+        } else {
+            break;
+        }
+    }
+    let mut p = 4096;
+    while p < n {
+        pts.push(p);
+        p *= 2;
+    }
+    pts.sort();
+    pts.dedup();
+    for &p in &pts {
+        for d in -2i64..=2 {
+            let q = p as i64 + d;
+            if q >= 1 && (q as usize) < n {
+                out.push(vec![q as usize]);
+            }
+        }
+    }
+    out
+}
+
 // ---------------------------------------------------------------------------------------------
 // C03
 
@@ -244,7 +283,30 @@ pub fn run_c03(tier: Tier) -> i32 {
             acc
         })
         .reduce(Acc::default, Acc::merge);
-    let cov = proto_coverage(&acc, "every abstract response of the bounded grammar (tier A: all field lists of <=2 fields over 3 keys x 12 values, and <=1 field x 8 binary payloads, binary first/last; tier B: all lists of <=2/3 frames over 6 representative frames, every error after every partial output; tier C: all sequences of <=2/3 responses over 8 representatives) x every segmentation in the stated sets x {blocking, async}; non-trivial = streams with several responses, a list/error form, a binary part, or a value that mimics a protocol keyword", json!({"all_compositions_upto_len": all_upto, "upto_2_cuts_upto_len": two_upto, "upto_3_cuts_upto_len": three_upto, "long_streams": "every single cut, pairs near structural boundaries, chunk sizes 1,2,3,7,4095,4096,4097"}));
+    let multis = multi_binary_streams(tier.pick(2, 3));
+    let acc_multi = multis
+        .par_iter()
+        .map(|(name, ws)| {
+            let mut acc = Acc::default();
+            let (stream, bounds) = encode_items(ws, BinPos::Last);
+            let expected: Vec<AResponse> = ws.iter().map(|w| w.expected()).collect();
+            acc.streams += 1;
+            acc.nontrivial += 1;
+            let expect = Expect { responses: expected, ends: vec![Terminal::Clean] };
+            let sets = multi_segsets(&stream, &bounds);
+            for cuts in &sets {
+                for flavor in [Flavor::Sync, Flavor::Async] {
+                    check_session("C03", &stream, cuts, flavor, 0, EndAnswer::Eof, &expect, false, &mut acc, &default_sig("C03"));
+                }
+            }
+            if name.contains("[8192, 8192]") {
+                acc.samples.push(json!({"multi_binary_stream": name, "bytes": stream.len(), "segmentations_tried": sets.len()}));
+            }
+            acc
+        })
+        .reduce(Acc::default, Acc::merge);
+    let acc = acc.merge(acc_multi);
+    let cov = proto_coverage(&acc, "every abstract response of the bounded grammar (tier A: all field lists of <=2 fields over 3 keys x 12 values, and <=1 field x 8 binary payloads, binary first/last; tier B: all lists of <=2/3 frames over 6 representative frames, every error after every partial output; tier C: all sequences of <=2/3 responses over 8 representatives) x every segmentation in the stated sets x {blocking, async}; plus every sequence of <=2/3 large binary components (sizes 10..17000 straddling the 4 KiB buffer and its doublings) as separate responses and as one list, under fill-the-buffer reads, network-like chunk sizes and cuts around every component boundary; non-trivial = streams with several responses, a list/error form, a binary part, or a value that mimics a protocol keyword", json!({"all_compositions_upto_len": all_upto, "upto_2_cuts_upto_len": two_upto, "upto_3_cuts_upto_len": three_upto, "long_streams": "every single cut, pairs near structural boundaries, chunk sizes 1,2,3,7,4095,4096,4097"}));
     finish(&ctx, cov, acc.viol)
 }
 
@@ -364,11 +426,26 @@ pub fn run_c02(tier: Tier) -> i32 {
             acc
         })
         .reduce(Acc::default, Acc::merge);
-    let mut acc = acc.merge(acc_long);
+    let multis = multi_binary_streams(tier.pick(2, 3));
+    let acc_multi = multis
+        .par_iter()
+        .map(|(name, ws)| {
+            let mut acc = Acc::default();
+            let (s, bounds) = encode_items(ws, BinPos::Last);
+            let sets = multi_segsets(&s, &bounds);
+            c02_check_stream(&s, &sets, &[], &mut acc);
+            acc.nontrivial += 1;
+            if name.contains("[9000, 9000]") {
+                acc.samples.push(json!({"multi_binary_stream": name, "bytes": s.len(), "segmentations": sets.len()}));
+            }
+            acc
+        })
+        .reduce(Acc::default, Acc::merge);
+    let mut acc = acc.merge(acc_long).merge(acc_multi);
     acc.samples.push(json!({"well_formed_streams": wf, "truncated_and_corrupted_streams": streams.len() - wf, "long_streams": longs.len()}));
     let cov = proto_coverage(
         &acc,
-        "byte streams = well-formed grammar streams, every truncation and single-byte substitution/deletion/insertion of 8 two-response streams, and long responses with boundaries at 4096/8192/16384 +-1 and binary payloads of 4000..8300 bytes; x every segmentation of the stated sets x {blocking, async} x Pending answers; each stream is distinct and counts as non-trivial (all have >= 2 segmentations)",
+        "byte streams = well-formed grammar streams, every truncation and single-byte substitution/deletion/insertion of 8 two-response streams, long responses with boundaries at 4096/8192/16384 +-1 and binary payloads of 4000..8300 bytes, and every sequence of <=2/3 large binary components (10..17000 bytes) as separate responses and as one list; x every segmentation of the stated sets x {blocking, async} x Pending answers; each stream is distinct and counts as non-trivial (all have >= 2 segmentations)",
         json!({"all_compositions_upto_len": all_upto, "upto_2_cuts_upto_len": two_upto, "upto_3_cuts_upto_len": three_upto, "pending_masks": pend, "long_streams": "every (quick: every third) single cut, +-3 around every structural boundary, pairs near boundaries, chunk sizes 1,2,3,7,4095,4096,4097"}),
     );
     finish(&ctx, cov, acc.viol)
